@@ -54,9 +54,7 @@ pub fn sweep_range<C: Serialize>(
                 }
                 let res = match util::catch(|| run(&case)) {
                     Ok(r) => r,
-                    Err(p) => Err(Fail::new("panic", format!("panic: {} at {}", p.msg, p.short_location()))
-                        .with("panic_file", p.file())
-                        .with("panic_msg", p.msg.clone())),
+                    Err(p) => Err(Fail::from_panic(&p)),
                 };
                 local_done += 1;
                 match res {
@@ -92,8 +90,22 @@ pub fn sweep_range<C: Serialize>(
 }
 
 /// Same for an explicit list of cases.
+/// Same for an explicit list of cases. Duplicate cases (equal serialized form) are dropped first, so that
+/// every evaluation is a distinct case.
 pub fn sweep_list<C: Serialize + Sync>(
     ctx: &Ctx, family: &str, cases: &[C], opts: SweepOpts, run: impl Fn(&C) -> CaseResult + Sync,
 ) -> FamilyStats {
-    sweep_range(ctx, family, cases.len() as u64, opts, |i| &cases[i as usize], |c| run(*c))
+    if !ctx.family_enabled(family) {
+        return FamilyStats::default();
+    }
+    let mut seen: HashSet<(u64, u64)> = HashSet::with_capacity(cases.len());
+    let mut idx: Vec<usize> = Vec::with_capacity(cases.len());
+    for (i, c) in cases.iter().enumerate() {
+        let s = serde_json::to_vec(c).unwrap();
+        let key = (util::fnv64(&s), s.len() as u64 ^ (util::fnv64(&s[s.len() / 2..]) << 1));
+        if seen.insert(key) {
+            idx.push(i);
+        }
+    }
+    sweep_range(ctx, family, idx.len() as u64, opts, |i| &cases[idx[i as usize]], |c| run(*c))
 }
